@@ -738,7 +738,7 @@ pub fn run(tier: Tier, seed: u64) -> i32 {
             "negation of rule references and the body size of `some` blocks are read from the tool's own parse tree (parser, not evaluator)".into(),
         ],
     };
-    execute("C02", tier, seed, spec, &replay, &|run: &crate::engine::Run| {
+    execute("C02", tier, seed, spec, &replay, &|run: &Session| {
         let shapes: Vec<Vec<usize>> = match tier {
             // quick: <=2 lines x <=3 alternatives and 3 lines x <=2 alternatives
             Tier::Quick => {
